@@ -130,8 +130,9 @@ MetaLineOK(line, row, meta, tol) ==
     LET v == meta[row[2]] IN
     CASE row[3] = "str"   -> line.raw = v.str
       [] row[3] = "words" -> line.words = v.words
-      [] row[3] = "num"   -> line.isnum /\ line.num = v.num
-      [] row[3] = "int"   -> line.isnum /\ Abs(line.num - v.num) <= tol
+      \* numbers x1000 are carried as hi * 10^9 + num (32-bit integers)
+      [] row[3] = "num"   -> line.isnum /\ line.hi = v.hi /\ line.num = v.num
+      [] row[3] = "int"   -> line.isnum /\ line.hi = v.hi /\ Abs(line.num - v.num) <= tol
       [] row[3] = "bool"  -> line.isnum /\ ((line.num # 0) = (v.num # 0))
       [] row[3] = "sset"  -> SSet(line.raw) = v.num \div 1000
 
